@@ -126,6 +126,13 @@ def transpile_token(
             "0.5" if part == "." else part for part in token.value.split("°")
         ]
 
+        if len(parts) == 1 and "." in parts[0]:
+            # A decimal literal denotes exactly the rational it spells
+            # (nsimplify would round it to a "nicer" nearby number)
+            return indent_str(
+                f'stack.append(sympy.Rational("{parts[0]}"))', indent
+            )
+
         parts = "+".join(parts)
         if parts[0] == "+":
             parts = (parts or "1") + "I"
